@@ -60,12 +60,57 @@ def coq_make(targets=None, timeout=1500):
         return rc == 0, out + out2
 
 
+_DEPS = None
+
+
+def coq_deps():
+    """.vo -> list of .vo it depends on, from coqdep over _CoqProject"""
+    global _DEPS
+    if _DEPS is None:
+        files = [l.strip() for l in open(os.path.join(COQ, "_CoqProject")) if l.strip().endswith(".v")]
+        rc, out = sh(["coqdep", "-Q", ".", "EPG"] + files, cwd=COQ, timeout=300)
+        deps = {}
+        for line in out.splitlines():
+            m = re.match(r"(\S+)\.vo\b[^:]*:\s*(.*)", line)
+            if m:
+                deps[m.group(1) + ".vo"] = [d for d in m.group(2).split() if d.endswith(".vo")]
+        _DEPS = deps
+    return _DEPS
+
+
+def gen_needed(pid, props_file):
+    """names of the Gen/*.v files that Props/<pid>.v or the property's case headers (transitively) depend on"""
+    deps = coq_deps()
+    seen, todo = set(), [props_file[:-2] + ".vo"] + header_targets(pid)
+    while todo:
+        f = todo.pop()
+        if f in seen:
+            continue
+        seen.add(f)
+        todo += deps.get(f, [])
+    return {os.path.basename(f)[:-3] for f in seen if f.startswith("Gen/")}
+
+
 def header_targets(pid):
     """the .vo files of every EPG module the case files of property `pid` import (harness headers): they need not be
     dependencies of Props/<pid>.v, and a stale .vo would make the correspondence evaluate an old model"""
     names = set()
-    for f in (os.path.join(VERIF, "props", pid.lower() + ".py"), os.path.join(VERIF, "vlib", "prog.py"),
-              os.path.join(VERIF, "vlib", "dprog.py"), os.path.join(VERIF, "vlib", "tie.py")):
+    pf = os.path.join(VERIF, "props", pid.lower() + ".py")
+    try:
+        ptxt = open(pf).read()
+    except OSError:
+        ptxt = ""
+    files = [pf]
+    # the shared harness modules whose headers this property's module uses (from vlib import core, prog, dprog, tie)
+    used = set()
+    for m in re.finditer(r"^from vlib import ([A-Za-z_, ]+)", ptxt, re.M):
+        used |= {x.strip() for x in m.group(1).split(",")}
+    if "dprog" in used:
+        used.add("prog")
+    for mod in ("prog", "dprog", "tie"):
+        if mod in used or re.search(r"\b%s\." % mod, ptxt):
+            files.append(os.path.join(VERIF, "vlib", mod + ".py"))
+    for f in files:
         try:
             txt = open(f).read()
         except OSError:
@@ -190,10 +235,15 @@ class Ctx:
         props_file = props_file or "Props/%s.v" % pid
         if gen:
             from translator import main as tr
-            ok, msg = tr.generate()
-            if not ok:
-                self.failed_obligations.append("translator: " + msg)
-                self.notes["translator_error"] = msg
+            tr.generate()
+            # only the generated files this property depends on (theorems or case headers) decide
+            needed = gen_needed(pid, props_file)
+            for name, (gok, gmsg) in sorted(tr.STATUS.items()):
+                if not gok and name in needed:
+                    self.failed_obligations.append("translator (%s): %s" % (name, gmsg))
+                    self.notes["translator_error"] = gmsg
+                elif not gok:
+                    self.notes.setdefault("translator_unrelated_failures", []).append("%s: %s" % (name, gmsg))
         target = props_file[:-2] + ".vo"
         ok, out = coq_make([target] + list(extra_targets) + header_targets(pid))
         self.cov["checker_cmd"] = "coq_makefile -f _CoqProject -o Makefile && make -j%d %s (coqc 8.16.1, full .vo) ; coqc %s (Print Assumptions)" % (NPROC, target, props_file)
